@@ -76,4 +76,16 @@ Strengthening ==
   /\ (call # NoCall => \A i \in Idx : results[i] \in {Unset, call.cfg})
   /\ (call # NoCall => call.cfg \in Cfgs)
 CfgsAB == {"a", "b"}
+
+\* ---------------------------------------------------------------- progress (liveness, beyond the listed properties)
+\* a generate call in progress is never stuck, and with a fair scheduler of the workers every call returns:
+\* no worker can hold the last task forever, no task is handed out twice or not at all (NoLostTask above is the safety half).
+NoStuckCall == call # NoCall => ENABLED (SerialItem \/ WorkerAny \/ Collect)
+Remaining == IF call = NoCall THEN 0
+             ELSE 1 + 3 * Cardinality({i \in Idx : i >= nextIdx}) + Cardinality({w \in Workers : wstate[w] = St("new")})
+                    + 2 * Cardinality({w \in Workers : wstate[w][1] = "busy"})
+\* every step of a call in progress strictly decreases the work left (so a call takes at most 1 + 3 * NMazes + MaxWorkers steps)
+CallMakesProgress == [][(call # NoCall /\ call' = call) => Remaining' < Remaining]_dvars
+FairSpec == Spec /\ WF_dvars(SerialItem) /\ WF_dvars(Collect) /\ \A w \in Workers : WF_dvars(WorkerInit(w) \/ Take(w) \/ FinishTask(w))
+EveryCallReturns == (call # NoCall) ~> (call = NoCall)
 ==============================================================================
